@@ -1,7 +1,7 @@
 (* Properties/C09.v — Hedge: bounded attempts, spaced by the delay, one winner, losers cancelled.
    [hedge_run] is the virtual-time mirror of hedgepolicy/hedgeexecutor.go (Model/Hedge.v). *)
 From FS Require Import Model.Hedge Proofs.HedgeProofs Corr.C09.
-From FS Require Import Model.Exec Proofs.ExecHedgeProofs Proofs.ExecHedgeWinner Corr.C09x.
+From FS Require Import Model.Exec Proofs.ExecHedgeProofs Proofs.ExecHedgeWinner Proofs.ExecHedgeLosers Corr.C09x.
 
 (* For every maxHedges, delay function, cancel conditions, assignment of durations/outcomes/cooperativeness
    to the attempts and cancellation instant of the caller's context: at most maxHedges+1 attempts are
@@ -86,6 +86,32 @@ Theorem C09_in_stack_result_produced_by_an_attempt : forall pos total cfg c w,
        /\ (is_abortable (hg_cancel cfg) o = true \/ (S (hg_max cfg) <= cntE pre)%nat).
 Proof. exact hedge_layer_winner. Qed.
 Print Assumptions C09_in_stack_result_produced_by_an_attempt.
+
+(* at the moment the hedged run hands on an accepted result, every other attempt it started has been cancelled and the
+   winning attempt has not: unless the run is schedule-dependent or cancelled from outside, exactly one of the execution
+   copies the run created ([more]: copy and cancel scope of every attempt, in starting order) has a live context.
+   The premises say the world is well formed: the caller's scope exists, the execution's copy and the scopes of its chain
+   exist, attempts of earlier runs carry earlier run numbers (true of every world the model reaches; not proved as an
+   invariant of the other layers -- the Example below checks them for a fresh execution) *)
+Theorem C09_in_stack_losers_cancelled_winner_not : forall pos total cfg c w,
+  (1 <= length (w_scopes w))%nat -> (c < length (w_copies w))%nat ->
+  (forall s, In s (cp_chain (get_copy w c)) -> (s < length (w_scopes w))%nat) ->
+  (forall b, In b (w_bg w) -> (bg_grp b <= hs_grp (w_hs w))%nat) ->
+  let w' := snd (hedge_layer pos total cfg c w) in
+  w_oof w' = true
+  \/ is_canceled w' c <> None
+  \/ exists (more : list (nat * nat)) idx cw sw, nth_error more idx = Some (cw, sw)
+       /\ copy_err w' cw = None
+       /\ forall j c' s', nth_error more j = Some (c', s') -> j <> idx -> copy_err w' c' <> None.
+Proof. exact hedge_layer_one_left. Qed.
+Print Assumptions C09_in_stack_losers_cancelled_winner_not.
+
+Example C09_in_stack_premises_hold_for_a_fresh_execution :
+  let w := fresh_world 0 None CKNone [] [] [] [] [] in
+  (1 <= length (w_scopes w))%nat /\ (0 < length (w_copies w))%nat
+  /\ (forall s, In s (cp_chain (get_copy w 0)) -> (s < length (w_scopes w))%nat)
+  /\ (forall b, In b (w_bg w) -> (bg_grp b <= hs_grp (w_hs w))%nat).
+Proof. cbn. split; [lia|]. split; [lia|]. split; [intros s [<-|[]]; lia|intros b []]. Qed.
 
 (* premises are satisfiable: retry around a hedge, first attempt slow, the hedge wins *)
 Example C09_in_stack_example :
